@@ -14,11 +14,12 @@ EXTENDS Integers, Sequences, FiniteSets, TLC, Json, IOUtils, TLCExt
 TLog == ndJsonDeserialize(IOEnv.TRACE)
 NL   == Len(TLog)
 
-VARIABLES l, count, pre, n, cancelledAt, closed, returned
-vars == <<count, pre, n, cancelledAt, closed, returned>>
+VARIABLES l, count, pre, n, cancelledAt, closed, returned,
+  dl          \* the context of this execution ends by a deadline (no cancel line announces that)
+vars == <<count, pre, n, cancelledAt, closed, returned, dl>>
 tvars == <<vars, l>>
 
-TVInit == l = 1 /\ count = 0 /\ pre = FALSE /\ n = 0 /\ cancelledAt = -1 /\ closed = FALSE /\ returned = FALSE /\ TLCSet(1, 0)
+TVInit == l = 1 /\ count = 0 /\ pre = FALSE /\ n = 0 /\ cancelledAt = -1 /\ closed = FALSE /\ returned = FALSE /\ dl = FALSE /\ TLCSet(1, 0)
 Cur == TLog[l]
 IsEv(e) == l <= NL /\ Cur.ev = e
 Consume == l' = l + 1
@@ -26,6 +27,7 @@ Consume == l' = l + 1
 TReset ==
   /\ IsEv("reset") /\ Consume
   /\ count' = Cur.count /\ pre' = Cur.pre /\ n' = 0 /\ cancelledAt' = (IF Cur.pre THEN 0 ELSE -1) /\ closed' = FALSE /\ returned' = FALSE
+  /\ dl' = Cur.dl
 
 \* the first value is there when LinearAttempt returns (nothing at all if the context was cancelled beforehand)
 TRet ==
@@ -33,12 +35,12 @@ TRet ==
   /\ ~Cur.panic
   /\ Cur.buffered = (IF pre THEN 0 ELSE 1)
   /\ returned' = TRUE
-  /\ UNCHANGED <<count, pre, n, cancelledAt, closed>>
+  /\ UNCHANGED <<count, pre, n, cancelledAt, closed, dl>>
 
 TCancel ==
   /\ IsEv("cancel") /\ Consume
   /\ cancelledAt' = IF cancelledAt = -1 THEN n ELSE cancelledAt
-  /\ UNCHANGED <<count, pre, n, closed, returned>>
+  /\ UNCHANGED <<count, pre, n, closed, returned, dl>>
 
 TGot ==
   /\ IsEv("got") /\ Consume
@@ -48,14 +50,17 @@ TGot ==
   \* after cancellation at most one further tick is forwarded: one buffered + one in flight
   /\ cancelledAt # -1 => n + 1 <= cancelledAt + 2
   /\ n' = n + 1
-  /\ UNCHANGED <<count, pre, cancelledAt, closed, returned>>
+  /\ UNCHANGED <<count, pre, cancelledAt, closed, returned, dl>>
 
 TClosed ==
   /\ IsEv("closed") /\ Consume
   /\ returned
-  /\ cancelledAt = -1 => n = count                       \* without cancellation it closes after the count-th value
+  /\ (cancelledAt = -1 /\ ~dl) => n = count              \* without cancellation it closes after the count-th value
+  \* closed before the count-th value: only because the context is done (cancelled, or past its deadline) - the
+  \* receiver looked at the context after it had seen the close
+  /\ n < count => Cur.done
   /\ closed' = TRUE
-  /\ UNCHANGED <<count, pre, n, cancelledAt, returned>>
+  /\ UNCHANGED <<count, pre, n, cancelledAt, returned, dl>>
 
 \* the producer is only still ticking when it is allowed to be: not cancelled, not finished
 TQuiescent ==
